@@ -23,7 +23,7 @@ INFO = {
  "C11": ("model_checking", "for every rejected input the errors.Is vector over the eleven exported sentinels is recorded; TLC requires exactly one match, that it names a defect in Vector!Defects(input), which forces the kind when only one is present.", "7 C11, Appendix A"),
  "C14": ("model_checking", "for every accepted temporal/environmental input the BaseMetrics()/TemporalMetrics() views (score, severity, encoding) are compared with an independent lower-level decode of Vector!Project(input) (TLC recomputes the projection).", "7 C14"),
  "C17": ("model_checking", "Report!ExpectedReport gives the value of every exported field (own level, embedded reports, shadowed unqualified names) from the object's observations and the display-name functions; all 5,184 base reports and seeded temporal/environmental reports in six languages validated field by field by TLC.", "7 C17"),
- "C18": ("model_checking", "complete display-name table (52 functions x enumeration integers -2..8, the integers congruent to a defined value modulo 2^8 / 2^16 / 2^32 and the extreme ones x 26 language tags, read before and after all other tags were used) validated by TLC against the relational specification.", "7 C18"),
+ "C18": ("model_checking", "complete display-name table (52 functions x enumeration integers -2..8, the integers congruent to a defined value modulo 2^8 / 2^16 / 2^32 and the extreme ones x 36 language tags (among them three-letter languages beginning with ja / en, and ja / en spelled by a script or private-use subtag), read before and after all other tags were used) validated by TLC against the relational specification.", "7 C18"),
  "C12": ("exploration", "Objects.tla defines validity of an object state; MC_Objects enumerates the receiver states (6 kinds x constructor/nil x 14 decode inputs x field and version resets, with lemmas on the abstract machine); every state is materialised on the real types and every query is applied through every accessor, each step validated by TLC (no panic, object xor error, error and score 0 on invalid receivers). Arbitrary input bytes are sampled (random, TLC-explored edits, degenerate, 1-8 MiB) through constructor and nil receivers.", "7 C12, Appendix B"),
  "C15": ("model_checking", "each query is validated by TLC as a stuttering step of the Objects machine: the recorded snapshots of all live objects (exported fields + unexported names maps) and the digest of the package-level tables are UNCHANGED, repeated calls agree, and the result equals that of a freshly decoded twin; every history is replayed with queries injected before each operation (also before the first Decode) and must give the results of the plain run; thousands of vectors with near-duplicates are decoded in three processing orders with report construction in four languages interleaved and must give identical results, including the report built without options.", "7 C15"),
  "C16": ("exploration", "Concurrent.tla: every interleaving of the pure design is race free with sequential results and each of six deliberate deviations (lazy table, memoised score, shared names set, shared scratch buffer, last-template cache, buffer pool with a double put) is caught by TLC (non-vacuity). Conformance: all 70 TLC-generated interleavings of the gated decodeOne steps of two goroutines replayed deterministically through the build-tag hook, plus free-running stress on 16-128 goroutines, all under the Go race detector; every result validated by TLC against the sequential reference.", "7 C16"),
